@@ -9,11 +9,15 @@
 3. property monitors on the implementation alone against a set-based oracle written here
    (interesting / wanted r / seen; complete r <-> wanted r subset of seen) — they give the
    concrete failing history, which is then shrunk.
+4. large structured histories (`G` op lines, 10^4 .. 10^6 members per type): size-/count-dependent
+   behaviour (thresholds, amortised clean-ups).  Harness, compiled model and this module synthesize the same
+   history from 13 parameters (GSpec); outputs are running digests; the oracle is the same set-based one.
 """
 import os
 import re
 import subprocess
 import threading
+import time
 
 import vlib
 
@@ -126,6 +130,9 @@ def oracle(h):
             needed_by.setdefault(w, set()).add(i)
     seen = {}
     completed = set()
+    # number of DISTINCT wanted members of each relation that have not arrived yet (complete r <-> wanted r is a subset of
+    # seen <-> this number is zero; counting makes the oracle linear in the number of references)
+    waiting = {i: len(set(wanted[i])) for i in interesting}
     last = None
     per_op = []
     thrown = False
@@ -144,7 +151,8 @@ def oracle(h):
             seen[(k, oid)] = content
             now = set()
             for i in needed_by.get((k, oid), ()):
-                if i not in completed and all(w in seen for w in wanted[i]):
+                waiting[i] -= 1
+                if waiting[i] == 0 and i not in completed:
                     now.add(i)
             completed |= now
             per_op.append(('O', now, (k, oid) not in needed_by, False))
@@ -444,6 +452,467 @@ def gen_long(rng, nrel):
 
 
 # ------------------------------------------------------------------------------------------
+# large structured histories: synthesized from a few parameters by all three sides (this module, harness/c11.cpp `GSpec`,
+# lean/Driver/C11.lean `GSpec`); the outputs are digests
+
+M64 = (1 << 64) - 1
+SHAPES = ['share', 'shareadj', 'window', 'huge', 'pairs', 'random', 'hub']
+SIGNS = ['pos', 'neg', 'mixed', 'two-neg']
+ORDERS = ['asc', 'desc', 'interleaved']
+KC = {'n': 1, 'w': 2, 'r': 3}
+
+
+def dg_mix(x):
+    z = (x + 0x9E3779B97F4A7C15) & M64
+    z = ((z ^ (z >> 30)) * 0xBF58476D1CE4E5B9) & M64
+    z = ((z ^ (z >> 27)) * 0x94D049BB133111EB) & M64
+    return z ^ (z >> 31)
+
+
+def dg_hm(seed, a, b):
+    return dg_mix((dg_mix((seed + a) & M64) + b) & M64)
+
+
+def dg_step(h, x):
+    z = ((h ^ x) * 0x9E3779B97F4A7C15) & M64
+    return z ^ (z >> 32)
+
+
+class GSpec:
+    """parameters of one generated history (see the header of lean/Driver/C11.lean)"""
+    FIELDS = ['shape', 'n', 'k', 'ro', 'sg', 'st', 'kd', 'miss', 'dup', 'extra', 'ni', 'q', 'seed']
+
+    def __init__(self, variant='nwr', rm=11, mm=255, cb=True, wr=64, **kw):
+        self.variant, self.rm, self.mm, self.cb, self.wr = variant, rm, mm, cb, wr
+        self.shape, self.n, self.k, self.ro, self.sg, self.st, self.kd = 0, 1, 1, 0, 0, 2, 0
+        self.miss, self.dup, self.extra, self.ni, self.q, self.seed = 0, 0, 0, 0, 0, 1
+        for k, v in kw.items():
+            setattr(self, k, v)
+
+    def with_n(self, n):
+        g = GSpec(self.variant, self.rm, self.mm, self.cb, self.wr)
+        for f in self.FIELDS:
+            setattr(g, f, getattr(self, f))
+        g.n = n
+        return g
+
+    def line(self, maxbuf, fixed):
+        return 'G %s %d %d %d %d %d %d | %s | E' % (self.variant, self.rm, self.mm, 1 if self.cb else 0, maxbuf, self.wr, fixed,
+                                                  ' '.join(str(getattr(self, f)) for f in self.FIELDS))
+
+    def label(self):
+        return '%s k=%d n=%d %s ids, relations %s, kinds=%s%s%s%s' % (
+            SHAPES[self.shape], self.k, self.n, SIGNS[self.sg], ORDERS[self.ro], ['w', 'nwr', 'n', 'r'][self.kd],
+            ', member j never arrives if j mod %d = %d' % (self.miss, self.miss - 1) if self.miss else '',
+            ', relation i repeats its first member if i mod %d = 0' % self.dup if self.dup else '',
+            ', member mask %#x' % self.mm if self.mm != 255 else '')
+
+    # -- the generator (same arithmetic as the other two sides)
+    def kind_of(self, j):
+        return 'w' if self.kd == 0 else 'nwr'[j % 3] if self.kd == 1 else 'n' if self.kd == 2 else 'r'
+
+    def mag(self, j):
+        return 10 + j * self.st
+
+    def neg(self, j):
+        return self.sg == 1 or (self.sg == 2 and j % 3 == 0) or (self.sg == 3 and j < 2)
+
+    def id_of(self, j):
+        return -self.mag(j) if self.neg(j) else self.mag(j)
+
+    def n_rels(self):
+        return self.n * self.k if self.shape in (0, 1) else 1 + self.n // self.k if self.shape == 3 else self.n
+
+    def member_idx(self, i):
+        n, k, sh = self.n, self.k, self.shape
+        if sh == 0:
+            js = [i % n]
+        elif sh == 1:
+            js = [i // k]
+        elif sh == 2:
+            js = [(i + t) % n for t in range(k)]
+        elif sh == 3:
+            js = list(range(n)) if i == 0 else [(i - 1) * k]
+        elif sh == 4:
+            js = [i, n - 1 - i]
+        elif sh == 5:
+            w = 1 + dg_hm(self.seed, i, 3) % k
+            js = [dg_hm(self.seed, i, 10 + t) % n for t in range(w)]
+        else:
+            js = [i, 0] if i % k == 0 else [i]
+        if self.dup > 0 and i % self.dup == 0:
+            js.append(js[0])
+        return js
+
+    def perm(self, p):
+        r = self.n_rels()
+        return p if self.ro == 0 else r - 1 - p if self.ro == 1 else (p // 2 if p % 2 == 0 else r - 1 - p // 2)
+
+    def content(self, k, oid):
+        return dg_hm(self.seed ^ 0x55, abs(oid), KC[k] * 2 + (1 if oid < 0 else 0)) % 100000
+
+    def hist(self):
+        mem = [(self.kind_of(j), self.id_of(j)) for j in range(self.n)]
+        rels = []
+        seed, ni = self.seed, self.ni
+        for p in range(self.n_rels()):
+            i = self.perm(p)
+            cc = 2 if (ni > 0 and i % ni == ni - 1) else dg_hm(seed, i, 2) % 2
+            rels.append((i + 1, 4 * (dg_hm(seed, i, 1) % 250) + cc, [mem[j] for j in self.member_idx(i)]))
+        objs = []
+        for kd in KINDS:
+            for neg_pass in (True, False):
+                for j in range(self.n):
+                    if mem[j][0] == kd and self.neg(j) == neg_pass:
+                        if not (self.miss > 0 and j % self.miss == self.miss - 1):
+                            objs.append((kd, mem[j][1]))
+                        if self.extra > 0 and self.st >= 2 and j % self.extra == 0:
+                            objs.append((kd, -(self.mag(j) + 1) if neg_pass else self.mag(j) + 1))
+                    if self.kd == 0 and kd == 'n' and not neg_pass and self.extra > 0 and j % (self.extra * 7) == 0:
+                        objs.append(('n', self.mag(j)))
+        ops = []
+        for p, (kd, oid) in enumerate(objs):
+            ops.append(('O', kd, oid, self.content(kd, oid)))
+            ops.append(('Q', 'n', 0))
+            if self.q > 0 and p % self.q == self.q - 1:
+                ops.append(('Q',) + mem[dg_hm(seed, p, 7) % self.n])
+            if p % 1000 == 999:
+                ops.append(('F',))
+        if self.q > 0:
+            for j in range(self.n):
+                ops.append(('Q',) + mem[j])
+        return Hist(self.variant, self.rm, self.mm, self.cb, self.wr, rels, ops)
+
+
+def parse_gline(line):
+    """inverse of GSpec.line"""
+    secs = [x.split() for x in line.split('|')]
+    hd, ps = secs[0], secs[1]
+    g = GSpec(hd[1], int(hd[2]), int(hd[3]), hd[4] == '1', int(hd[6]))
+    for f, v in zip(GSpec.FIELDS, ps):
+        setattr(g, f, int(v))
+    return g
+
+
+def hist_digest(h):
+    xs = []
+    for rid, content, members in h.rels:
+        xs += [rid, content, len(members)]
+        for k, ref in members:
+            xs.append(KC[k])
+            xs.append(ref)
+    for op in h.ops:
+        if op[0] == 'O':
+            xs += [5, KC[op[1]], op[2], op[3]]
+        elif op[0] == 'Q':
+            xs += [6, KC[op[1]], op[2]]
+        else:
+            xs.append(7)
+    return sum(map(lambda a, b: a * b, xs, range(1, len(xs) + 1))) & M64
+
+
+def expected_digest(h, e):
+    """what the harness must print for a generated history, computed from the oracle's expectations only"""
+    H = A = objs = evs = 0
+    cks = []
+    step = dg_step
+    mp = h.variant == 'mp'
+    for op, ex in zip(h.ops, e.per_op):
+        t = ex[0]
+        if t == 'O':
+            if ex[3]:
+                continue
+            for i in ex[1]:
+                x = step(1, h.rels[i][0] & M64)
+                for k, ref in e.wanted[i]:
+                    x = step(step(step(step(x, KC[k]), ref & M64), 2), e.seen[(k, ref)])
+                A = (A + x) & M64
+                evs += 1
+            if ex[2] and not mp:
+                A = (A + step(step(2, KC[op[1]]), op[2] & M64)) & M64
+                evs += 1
+        elif t == 'Q':
+            st, ct = (2, ex[1][1]) if isinstance(ex[1], tuple) else (0, 0)
+            H = step(step(step(step(step(H, A), 3), KC[op[1]]), op[2] & M64), st * 4294967296 + ct)
+            A = 0
+            if op[1] == 'n' and op[2] == 0:
+                objs += 1
+                if objs % 4096 == 0:
+                    cks.append(H)
+        elif t == 'T':
+            H = step(step(H, A), 4)
+            A = 0
+            break
+    cks.append(step(H, A))
+    idig = 0
+    for rid in e.incomplete:
+        idig = step(idig, rid & M64)
+    return {'ops': objs, 'ev': evs, 'ck': cks, 'I': (len(e.incomplete), idig)}
+
+
+def parse_gout(line):
+    """`G ops=.. ev=.. ck=a,b,.. hist=.. ; I <n> <digest> ; S .. ; F .. ; U..` -> dict (None if malformed)"""
+    try:
+        parts = line.split(' ; ')
+        f = dict(x.split('=', 1) for x in parts[0].split(' ')[1:])
+        out = {'ops': int(f['ops']), 'ev': int(f['ev']), 'ck': [int(x) for x in f['ck'].split(',')], 'hist': int(f['hist'])}
+        if not parts[0].startswith('G '):
+            return None
+        i = parts[1].split(' ')
+        out['I'] = (int(i[1]), int(i[2]))
+        _, tail = parse_out(' ; '.join(['I -'] + parts[2:]))
+        out['tail'] = tail
+        return out
+    except Exception:
+        return None
+
+
+class Summary:
+    """what gen_monitor needs of the oracle's expectations (the expectations of a 10^6-member history are not kept)"""
+
+    def __init__(self, h, e):
+        self.wr = h.wr
+        self.n_incomplete, self.n_interesting, self.n_completed = len(e.incomplete), len(e.interesting), len(e.completed)
+        self.counts = e.counts
+        self.exp = expected_digest(h, e)
+        self.hist = hist_digest(h)
+        self.nrel = len(h.rels)
+        self.nobj = sum(1 for o in h.ops if o[0] == 'O')
+        self.nontrivial = bool(e.interesting) and self.nobj > 0
+
+
+def gen_monitor(sm, got):
+    """compare the digests of one generated history with the oracle's; -> list of (key, text)"""
+    bad = []
+    exp = sm.exp
+    if got is None:
+        return [('malformed-output', 'cannot parse the harness output of a generated history')]
+    if got['ops'] != exp['ops']:
+        bad.append(('generated-history-objects', 'the harness counted %d objects, the history has %d' % (got['ops'], exp['ops'])))
+    if got['ck'] != exp['ck'] or got['ev'] != exp['ev']:
+        j = next((j for j in range(min(len(got['ck']), len(exp['ck']))) if got['ck'][j] != exp['ck'][j]), min(len(got['ck']), len(exp['ck'])))
+        bad.append(('events-differ', 'callbacks / not-in-any-relation reports / lookups differ from the set-based oracle: %d events, expected %d; '
+                    'first difference between object %d and object %d of the stream' % (got['ev'], exp['ev'], j * 4096, min((j + 1) * 4096, exp['ops']))))
+    if got['I'] != exp['I']:
+        bad.append(('incomplete-list-wrong', 'for_each_incomplete_relation lists %d relations (digest %d); interesting relations never completed: %d (digest %d)'
+                    % (got['I'][0], got['I'][1], exp['I'][0], exp['I'][1])))
+    tail = got['tail']
+    if tail.get('rels') != (sm.n_incomplete, sm.n_interesting):
+        bad.append(('relations-db-count', 'relations database holds %r (live/all), expected %r' % (tail.get('rels'), (sm.n_incomplete, sm.n_interesting))))
+    for k in KINDS:
+        if tail.get('cnt' + k) != sm.counts[k]:
+            bad.append(('members-db-count', 'members database %s counts tracked/available/removed = %r, expected %r' % (k, tail.get('cnt' + k), sm.counts[k])))
+    if 'F' in tail:
+        flushes, flushed, left = tail['F']
+        if flushed + left != sm.wr * sm.n_completed:
+            bad.append(('output-bytes-lost', 'callbacks wrote %d bytes, flushed %d + left in buffer %d' % (sm.wr * sm.n_completed, flushed, left)))
+    return bad
+
+
+def size_class(n):
+    return '<1k' if n < 1000 else '1k-10k' if n < 10000 else '10k-20k' if n < 20000 else '20k-50k' if n < 50000 else '50k-200k' if n < 200000 else '>=200k'
+
+
+def big_specs(rng, quick, with_lookups):
+    """(tiny, large) generated histories.  Every run has the fixed core (each shape once, sizes beyond 10 000 / 20 000 /
+    40 000 removals in one members database, all id sign classes, all relation orders) plus cases drawn from the seed."""
+    q = 37 if with_lookups else 0
+    mk = lambda **kw: GSpec(q=q, seed=1 + rng.below(1 << 40), **kw)
+    tiny = []
+    for _ in range(40 if quick else 600):
+        sh = rng.below(7)
+        n = 2 + rng.below(rng.choice([6, 30, 300]))
+        tiny.append(mk(variant=rng.choice(['nwr', 'nwr', 'w', 'mp', 'nw', 'wr', 'r', 'n']), rm=rng.choice([11, 15, 3]), mm=rng.choice([255, 255, 0xFE, 0x7F, 0xAA]),
+                       cb=rng.chance(2, 3), wr=rng.choice([0, 64, 300000]), shape=sh, n=n, k=1 + rng.below(4), ro=rng.below(3), sg=rng.below(4),
+                       st=1 + rng.below(3), kd=rng.below(4), miss=rng.choice([0, 0, 2, 5]), dup=rng.choice([0, 0, 1, 3]), extra=rng.choice([0, 1, 4]),
+                       ni=rng.choice([0, 0, 3])))
+    core = [
+        mk(shape=0, n=20000, k=3, ro=0, sg=0, st=2, extra=5),
+        mk(shape=1, n=15000, k=2, ro=1, sg=1, st=1),
+        mk(shape=2, n=25000, k=4, ro=2, sg=2, st=2, miss=97, dup=5, extra=9),
+        mk(shape=4, n=30000, k=1, ro=2, sg=2, st=3, extra=11, variant='w'),
+        mk(shape=3, n=30000, k=3, ro=0, sg=2, st=2, dup=1, miss=0),
+        mk(shape=5, n=25000, k=4, ro=1, sg=2, st=2, miss=50, ni=7, mm=0xFE, dup=6),
+        mk(shape=6, n=20000, k=10, ro=0, sg=1, st=2, extra=3),
+        mk(shape=0, n=40000, k=1, ro=2, sg=0, st=1, kd=1),
+        mk(shape=1, n=12000, k=4, ro=0, sg=3, st=2, variant='mp', wr=200000),
+    ]
+    extra = []
+    for _ in range(3 if quick else 24):
+        sh = rng.below(7)
+        k = 1 + rng.below(4) if sh != 6 else 5 + rng.below(20)
+        per = k if sh in (0, 1, 2) else 2
+        n = max(4000, min(12000 + rng.below(28000), 90000 // per))
+        if not quick and rng.chance(1, 4):
+            n *= 4
+        variant = rng.choice(['nwr', 'nwr', 'w', 'mp', 'nw', 'wr'])
+        kd = rng.choice({'nwr': [0, 0, 1, 1, 2, 3], 'w': [0], 'mp': [0], 'nw': [0, 2], 'wr': [0, 3]}[variant])   # member kinds the manager handles
+        extra.append(mk(variant=variant, rm=rng.choice([11, 15]), mm=rng.choice([255, 255, 255, 0xFE, 0x7F]),
+                        cb=rng.chance(2, 3), wr=rng.choice([0, 64, 2000]), shape=sh, n=n, k=k, ro=rng.below(3), sg=rng.below(3), st=1 + rng.below(3),
+                        kd=kd, miss=rng.choice([0, 0, 31, 400]), dup=rng.choice([0, 0, 4, 1000]),
+                        extra=rng.choice([0, 7, 50]), ni=rng.choice([0, 0, 9])))
+    if not quick:
+        extra += [mk(shape=0, n=330000, k=3, ro=2, sg=2, st=2), mk(shape=3, n=1000000, k=4, ro=2, sg=2, st=2, kd=1, miss=13),
+                  mk(shape=2, n=250000, k=4, ro=1, sg=1, st=1, dup=3), mk(shape=4, n=500000, k=1, ro=0, sg=2, st=2, variant='w')]
+    return tiny, core + extra
+
+
+def big_pass(ctx, hbin, maxbuf, fixed, f7_present, habin=None, asan_env=None):
+    """large structured histories: implementation vs set-based oracle (digests), implementation vs compiled model;
+    a failing history is reduced (smaller n with the same parameters) and re-run in the one-line-per-object
+    format so that the ordinary monitors name the object and the relation"""
+    quick = ctx.tier == 'quick'
+    t0 = time.time()
+    tiny, large = big_specs(ctx.rng, quick, with_lookups=not f7_present)
+    specs = tiny + large
+    lines = [g.line(maxbuf, fixed) for g in specs]
+    text = '\n'.join(lines) + '\n'
+    res = {}
+
+    def run_impl():
+        try:
+            res['impl'] = ctx.run_lines([hbin], text, timeout=(300 if quick else 3600))
+        except subprocess.TimeoutExpired:
+            res['impl'] = (-999, [], 'timeout: the harness hangs')
+
+    def run_model():
+        if ctx.exe_build_ok:
+            try:
+                res['model'] = ctx.run_lines([ctx.model_exe('model_c11')], text, timeout=(300 if quick else 3600))
+            except subprocess.TimeoutExpired:
+                res['model'] = (-999, [], 'timeout')
+    ths = [threading.Thread(target=run_impl), threading.Thread(target=run_model)]
+    for t in ths:
+        t.start()
+    # the oracle's side, meanwhile
+    sums = []
+    for g in specs:
+        h = g.hist()
+        sums.append(Summary(h, oracle(h)))
+        del h
+    for t in ths:
+        t.join()
+    rc, impl, se = res['impl']
+    ctx.extra['big_histories'] = []
+    ctx.count('big-histories', len(large))
+    ctx.count('small-generated-histories', len(tiny))
+
+    def one(g):
+        """(bad, output line) of the harness on one generated history"""
+        h = g.hist()
+        e = oracle(h)
+        try:
+            r1, o1, s1 = ctx.run_lines([hbin], g.line(maxbuf, fixed) + '\n', timeout=300)
+        except subprocess.TimeoutExpired:
+            return [('harness-hangs', 'the harness does not finish')], '', h, e
+        if r1 != 0 or not o1:
+            return [('harness-crash', 'the harness dies (rc=%d): %s' % (r1, s1[-300:]))], '', h, e
+        return gen_monitor(Summary(h, e), parse_gout(o1[0])), o1[0], h, e
+
+    def localize(g, key):
+        """smallest n (same other parameters, bisection) on which the monitor `key` still fires; then the object-level
+        message of the ordinary monitors on the one-line-per-object form of that history"""
+        lo, hi = 1, g.n          # hi fails
+        for _ in range(9):
+            if hi - lo <= max(1, hi // 40):
+                break
+            mid = (lo + hi) // 2
+            if any(k == key for k, _ in one(g.with_n(mid))[0]):
+                hi = mid
+            else:
+                lo = mid
+        gm = g.with_n(hi)
+        bad, out, h, e = one(gm)
+        detail = ''
+        if sum(1 for o in h.ops if o[0] == 'O') <= 120000:
+            hi_ = hints_of(h, e)
+            try:
+                r1, o1, s1 = ctx.run_lines([hbin], h.line(maxbuf, fixed, hi_) + '\n', timeout=300)
+                if r1 == 0 and o1:
+                    ms = monitor(h, e, o1[0], hi_)
+                    if ms:
+                        detail = '; '.join('%s' % w for _, w in ms[:2])
+            except subprocess.TimeoutExpired:
+                pass
+        return gm, out, detail, bad
+
+    if rc != 0 or len(impl) != len(lines):
+        culprit = None
+        for g, l in zip(specs, lines):
+            bad, out, h, e = one(g)
+            if bad and bad[0][0] in ('harness-crash', 'harness-hangs'):
+                culprit = (g, l, bad[0][1])
+                break
+        if culprit:
+            g, l, what = culprit
+            ctx.violation('crash-generated-history', 'the harness dies on a generated history inside the property\'s domain (%s): %s' % (g.label(), what),
+                          {'kind': 'counterexample', 'op': l, 'replay': 'echo "<op>" | <harness c11>'})
+        else:
+            ctx.violation('harness-crash-big', 'harness exited %d on the generated histories: %s' % (rc, se[-500:]), {'kind': 'harness-crash', 'stderr': se[-2000:]}, found_input=False)
+        return
+    seen_keys = set()
+    for g, l, o, sm in zip(specs, lines, impl, sums):
+        got = parse_gout(o)
+        big = g.n >= 1000
+        if got is not None and got['hist'] != sm.hist:
+            ctx.violation('generator-mismatch', 'harness/c11.cpp and tools/props/c11.py synthesize different histories from `%s`' % l,
+                          {'kind': 'check-error', 'op': l}, found_input=False)
+            continue
+        bad = gen_monitor(sm, got)
+        removed = max(sm.counts[k][2] for k in KINDS)
+        outcome = 'ok' if not bad else 'violation'
+        if big:
+            ctx.count('big:%s|removals-in-one-db=%s|ids=%s|%s' % (SHAPES[g.shape], size_class(removed), SIGNS[g.sg], outcome))
+            ctx.extra['big_histories'].append({'op': l, 'what': g.label(), 'relations': sm.nrel, 'objects': sm.nobj, 'completed': sm.n_completed,
+                                               'incomplete': sm.n_incomplete, 'members_db_removed': {k: sm.counts[k][2] for k in KINDS},
+                                               'outcome': outcome})
+        else:
+            ctx.count('small-generated:%s|ids=%s|%s' % (SHAPES[g.shape], SIGNS[g.sg], outcome))
+        ctx.note_case(l, nontrivial=sm.nontrivial)
+        new_keys = [key for key, _ in bad if key not in seen_keys]
+        if not new_keys or len(seen_keys) >= 6:
+            continue
+        gm, out, detail, bad_m = localize(g, new_keys[0])
+        keys_m = dict(bad_m)
+        for key, what in bad:
+            if key in seen_keys or len(seen_keys) >= 6:
+                continue
+            seen_keys.add(key)
+            gk, wk, dk = (gm, keys_m[key], detail) if key in keys_m else (g, what, '')
+            lm = gk.line(maxbuf, fixed)
+            ctx.violation(key if key != 'events-differ' else 'events-differ:' + SHAPES[g.shape],
+                          '%s  [generated history (%s): %s]%s' % (wk, gk.label(), lm, ('  in detail: ' + dk[:600]) if dk else ''),
+                          {'kind': 'counterexample', 'op': lm, 'impl': out[:2000] if gk is gm else o[:2000], 'original_op': l,
+                           'replay': 'echo "<op>" | <harness c11>   (python3 tools/check.py C11 evaluates the oracle; the history is synthesized from the parameters, see lean/Driver/C11.lean)'})
+    if 'model' in res:
+        rcm, model, sem = res['model']
+        dis = ctx.diff_streams('c11-generated-model-vs-impl', lines, impl, model)
+        if dis and not [v for v in ctx.violations if v.key != F7_KEY]:
+            i, op, a, b2 = dis[0]
+            pa, pb = a.split(' ; '), b2.split(' ; ')
+            j = next((j for j in range(min(len(pa), len(pb))) if pa[j] != pb[j]), 0)
+            ctx.violation('correspondence-generated:' + SHAPES[specs[i].shape],
+                          'model and implementation disagree on %d generated histories and no property monitor fired; first: `%s` impl=`%s` model=`%s`'
+                          % (len(dis), op, pa[j][:300] if j < len(pa) else '', pb[j][:300] if j < len(pb) else ''),
+                          {'kind': 'broken-correspondence', 'stream': 'c11-generated-model-vs-impl', 'first': [d[:2] for d in dis[:3]]}, found_input=False)
+    # the memory side at these sizes: ASan + UBSan build on a few of the large histories (same digests expected)
+    if habin and not [v for v in ctx.violations if v.key != F7_KEY]:
+        idx = [i for i, g in enumerate(specs) if g.n >= 1000][:3 if quick else 8]
+        try:
+            rca, oa, sea = ctx.run_lines([habin], '\n'.join(lines[i] for i in idx) + '\n', env=asan_env, timeout=(300 if quick else 3600))
+        except subprocess.TimeoutExpired:
+            rca, oa, sea = -999, [], 'timeout'
+        ctx.count('big-histories-asan', len(idx))
+        if rca != 0 or oa != [impl[i] for i in idx]:
+            j = next((j for j in range(len(idx)) if j >= len(oa) or oa[j] != impl[idx[j]]), 0)
+            sig = re.search(r'(runtime error: [^\n]*|ERROR: AddressSanitizer: [^\n:]*)', sea)
+            ctx.violation('asan-generated-history', 'the ASan+UBSan build %s on a generated history (%s): %s'
+                          % ('dies (rc=%d)' % rca if rca != 0 else 'gives different results', specs[idx[j]].label(), sig.group(1)[:200] if sig else sea[-300:]),
+                          {'kind': 'counterexample', 'op': lines[idx[j]], 'stderr': sea[-2000:]})
+    ctx.extra['big_histories_wall_s'] = round(time.time() - t0, 1)
+
+
+# ------------------------------------------------------------------------------------------
 
 def extract_max_buffer(ctx):
     p = os.path.join(vlib.REPO, 'include/osmium/memory/callback_buffer.hpp')
@@ -454,6 +923,99 @@ def extract_max_buffer(ctx):
         ctx.assumptions.append('default_max_buffer_size not found by the extractor; using 800 KiB')
         return 800 * 1024
     return int(m.group(1)) * int(m.group(2))
+
+
+# ------------------------------------------------------------------------------------------
+# source census: which member functions touch the LAYOUT (size / order of the entries) of `m_elements`?
+# (-> lean/Osmium/Generated/C11Layout.lean; Props/C11.lean `layout_changes_only_in_first_pass`: the vector machine
+# and `elements_stable_during_add` assume that nothing reachable from add()'s callback moves an element)
+
+LAYOUT_KEEPING = {'size', 'empty', 'capacity', 'begin', 'end', 'cbegin', 'cend', 'data', 'iterate', 'std::equal_range', 'std::lower_bound',
+                  'std::upper_bound', 'std::count_if', 'std::find_if', 'std::for_each', 'std::any_of', 'std::all_of', 'std::none_of',
+                  'std::binary_search', 'std::distance', 'declaration'}
+
+
+def extract_layout(ctx):
+    path = os.path.join(vlib.REPO, 'include/osmium/relations/members_database.hpp')
+    with open(path) as f:
+        src = f.read()
+    src = re.sub(r'/\*.*?\*/', lambda m: re.sub(r'[^\n]', ' ', m.group(0)), src, flags=re.S)
+    src = re.sub(r'//[^\n]*', '', src)
+    src = re.sub(r'"(?:[^"\\\n]|\\.)*"', '""', src)
+    # scopes: header text before every `{`
+    stack = []          # (header, is_function, name)
+    uses = []
+    last_cut = 0
+    i = 0
+    n = len(src)
+    var = 'm_elements'
+    while i < n:
+        ch = src[i]
+        if ch == '{':
+            header = src[last_cut:i].strip()
+            m = re.search(r'([~\w]+|operator\s*\S+?)\s*\([^{};]*\)\s*(?:const)?\s*(?:noexcept)?\s*(?:->\s*[\w:<>&\s]+)?\s*(?::[^{};]*)?$', header, flags=re.S)
+            name = None
+            if m and not re.match(r'(?:if|for|while|switch|catch|else)\b', header.split('(')[0].strip().split()[-1] if header.split('(')[0].strip() else 'if'):
+                cand = m.group(1)
+                if cand not in ('if', 'for', 'while', 'switch', 'catch', 'return', 'sizeof', 'assert'):
+                    name = cand
+            stack.append(name)
+            last_cut = i + 1
+        elif ch == '}':
+            if stack:
+                stack.pop()
+            last_cut = i + 1
+        elif ch == ';':
+            last_cut = i + 1 if not _in_parens(src, last_cut, i) else last_cut
+        elif src.startswith(var, i) and not (src[i - 1].isalnum() or src[i - 1] == '_') and not (src[i + len(var)].isalnum() or src[i + len(var)] == '_'):
+            fn = next((x for x in reversed(stack) if x), None)
+            rest = src[i + len(var):i + len(var) + 40]
+            before = src[max(0, i - 200):i]
+            m = re.match(r'\s*\.\s*(\w+)\s*\(', rest)
+            if m:
+                op = m.group(1)
+                if op in ('begin', 'end', 'cbegin', 'cend'):
+                    # which algorithm receives the iterator?
+                    calls = re.findall(r'(std::\w+|\b\w+)\s*\((?:[^()]|\([^()]*\))*$', before)
+                    op2 = calls[-1] if calls else op
+                    uses.append((fn or '<class scope>', op2 if op2.startswith('std::') else op))
+                else:
+                    uses.append((fn or '<class scope>', op))
+            elif re.search(r':\s*$', before) and re.search(r'for\s*\([^()]*$', before):
+                uses.append((fn or '<class scope>', 'iterate'))
+            elif fn is None and re.match(r'\s*;', rest):
+                uses.append(('<class scope>', 'declaration'))
+            else:
+                uses.append((fn or '<class scope>', 'other:' + rest.strip()[:12].replace('"', "'")))
+            i += len(var)
+            continue
+        i += 1
+    seen = []
+    for u in uses:
+        if u not in seen:
+            seen.append(u)
+    lines = ['/-', 'GENERATED by tools/props/c11.py from include/osmium/relations/members_database.hpp — do not edit.',
+             'Every use of `m_elements`: (member function, operation, does the operation change the LAYOUT of the vector — its size or the',
+             'position of an entry?).  Everything that is not known to keep the layout counts as changing it.', '-/',
+             'namespace Osmium.Generated.C11Layout', '',
+             'structure Use where', '  fn : String', '  op : String', '  changesLayout : Bool', '  deriving Repr, DecidableEq', '',
+             'def uses : List Use := [']
+    lines += [',\n'.join('  ⟨"%s", "%s", %s⟩' % (fn, op, 'false' if op in LAYOUT_KEEPING else 'true') for fn, op in seen)]
+    lines += [']', '', 'end Osmium.Generated.C11Layout', '']
+    changed = vlib.write_if_changed(os.path.join(vlib.LEAN, 'Osmium', 'Generated', 'C11Layout.lean'), '\n'.join(lines))
+    ctx.extra['m_elements_uses'] = ['%s: %s%s' % (fn, op, '' if op in LAYOUT_KEEPING else ' (changes the layout)') for fn, op in seen]
+    return seen
+
+
+def _in_parens(src, a, b):
+    """is position b inside an unclosed parenthesis opened after a?  (the `;` of a for header)"""
+    d = 0
+    for ch in src[a:b]:
+        if ch == '(':
+            d += 1
+        elif ch == ')':
+            d -= 1
+    return d > 0
 
 
 def shrink(h, fails, budget=150):
@@ -500,7 +1062,11 @@ def run(ctx):
     maxbuf = extract_max_buffer(ctx)
     ctx.extra['default_max_buffer_size'] = maxbuf
 
-    # ---- 1. proofs ------------------------------------------------------------------------
+    # ---- 1. proofs (the census of `m_elements` uses is regenerated from the source first) ----------
+    try:
+        extract_layout(ctx)
+    except Exception as ex:
+        ctx.violation('layout-census-failed', 'cannot extract the uses of m_elements from members_database.hpp: %r' % (ex,), {'kind': 'check-error'}, found_input=False)
     proof_ok = ctx.proof_stage(exes=['model_c11'])
 
     # ---- 2. harness builds (plain NDEBUG, ASan+UBSan NDEBUG, debug with asserts) ----------------
@@ -656,6 +1222,28 @@ def run(ctx):
         import json
         with open(ctx.replay) as f:
             rep = json.load(f)
+        if rep['op'].startswith('G '):
+            g = parse_gline(rep['op'])
+            gl = g.line(maxbuf, fixed)
+            h = g.hist()
+            e = oracle(h)
+            rc1, o1, s1 = ctx.run_lines([hbin], gl + '\n', timeout=600)
+            vlib.log('replay: impl  = %s' % (o1[0][:400] if o1 else '<none> rc=%d' % rc1))
+            bad = gen_monitor(Summary(h, e), parse_gout(o1[0]) if o1 else None)
+            if sum(1 for o in h.ops if o[0] == 'O') <= 120000 and bad:
+                hi_ = hints_of(h, e)
+                r2, o2, s2 = ctx.run_lines([hbin], h.line(maxbuf, fixed, hi_) + '\n', timeout=600)
+                if r2 == 0 and o2:
+                    bad += monitor(h, e, o2[0], hi_)
+            for key, what in bad[:6]:
+                ctx.violation(key, '%s  [generated history (%s): %s]' % (what, g.label(), gl), {'kind': 'counterexample', 'op': gl, 'impl': o1[0][:2000] if o1 else ''})
+            if ctx.exe_build_ok:
+                rcm, om, sem = ctx.run_lines([ctx.model_exe('model_c11')], gl + '\n', timeout=600)
+                vlib.log('replay: model = %s' % (om[0][:400] if om else '<none>'))
+                if ctx.diff_streams('c11-replay', [gl], o1, om) and not bad:
+                    ctx.violation('correspondence-replay', 'model and implementation disagree on the replayed history', {'kind': 'broken-correspondence', 'op': gl}, found_input=False)
+            ctx.note_case(gl)
+            return
         hr = parse_line(rep['op'])
         res = evaluate([hr], hbin)
         okr = report([hr], *res, hbin, 'plain')
@@ -800,6 +1388,9 @@ def run(ctx):
                 ctx.violation('correspondence-long', 'model and implementation disagree on the long history at event %d: impl=`%s` model=`%s`'
                               % (j, pa[j] if j < len(pa) else '<end>', pb[j] if j < len(pb) else '<end>'),
                               {'kind': 'broken-correspondence', 'op': lines_l[0][:2000] + ' ...'}, found_input=False)
+    # ---- large structured histories (size-/count-dependent behaviour: thresholds, amortised clean-ups) -------------
+    big_pass(ctx, hbin, maxbuf, fixed, f7_present, habin, asan_env)
+
     if total_gcs == 0:
         ctx.violation('long-history-no-gc', 'the long histories did not trigger ItemStash::garbage_collect; the generator must be adapted',
                       {'kind': 'check-error'}, found_input=False)
@@ -810,4 +1401,7 @@ def run(ctx):
         'an interesting relation without any wanted member is never completed by the code and is listed as incomplete (there is no "last member"); the oracle follows the code here',
         'objects of the second pass are represented by (type, id, content); identity with the input object is checked bytewise by the harness',
     ]
+    ctx.assumptions.append('generated histories (G lines): ids 10 + j*st (never 0), relation ids 1..R, member stream in file order by construction; '
+                           'the generator is implemented three times (harness, model driver, this module) and cross-checked by a digest of the synthesized history')
+    ctx.trusted.append('tools/props/c11.py extract_layout: regex census of the uses of m_elements in members_database.hpp (direct uses of the member only)')
     ctx.trusted.append('hand transcription of relations_manager.hpp / members_database.hpp / relations_database.hpp into lean/Osmium/Model/RelMgr.lean, checked by the correspondence streams')
